@@ -800,3 +800,69 @@ def two_objects_case(rng, scratch, tag):
     vloop.run(main(), auto=False)
     return out, dict(objects=nobj, appends=len(plan), single_connection=single,
                      alternations=sum(1 for a, b in zip(plan, plan[1:]) if a[0] != b[0] and a[1] == b[1]))
+
+
+# ---- two subscribers of one run, one of them goes away (monitor only) ----------------------------------------
+def subscriber_leaves_case(rng, backend, scratch, tag):
+    """Subscribers A and B follow the same run; after some events A disconnects (its generator is closed) or
+    reconnects; more events are appended: B must still be handed every one of them, in order, within the store's
+    poll interval.  Returns (failures, facts)."""
+    n1, n2 = rng.randint(0, 2), rng.randint(1, 3)
+    reconnect = rng.random() < 0.5
+    out = []
+
+    async def main():
+        store = make_store(backend, scratch, tag + "_sl")
+        base_poll = AbstractWorkflowStore.poll_interval
+        AbstractWorkflowStore.poll_interval = POLL
+        pid = 0
+        try:
+            a = store.subscribe_events("r", after_sequence=-1)
+            b = store.subscribe_events("r", after_sequence=-1)
+            got_b = []
+
+            async def nxt(gen):
+                item = await asyncio.wait_for(gen.__anext__(), 20 * POLL + 5)
+                return item[0] if isinstance(item, tuple) else item.sequence
+            for _ in range(n1):
+                pid += 1
+                await store.append_event("r", envelope("plain", pid))
+            for _ in range(n1):
+                await nxt(a)
+                got_b.append(await nxt(b))
+            # both are now parked waiting for the next event; start their reads, then A goes away
+            ta = asyncio.ensure_future(nxt(a))
+            tb = asyncio.ensure_future(nxt(b))
+            await asyncio.sleep(0)
+            ta.cancel()
+            await asyncio.gather(ta, return_exceptions=True)
+            await a.aclose()
+            if reconnect:
+                a = store.subscribe_events("r", after_sequence=n1 - 1)
+            for _ in range(n2):
+                pid += 1
+                await store.append_event("r", envelope("plain", pid))
+            try:
+                got_b.append(await tb)
+                for _ in range(n2 - 1):
+                    got_b.append(await nxt(b))
+            except asyncio.TimeoutError:
+                out.append("subscriber B of run r received sequences %s and then nothing for %s s although %d events were "
+                           "appended (%d before and %d after subscriber A %s)"
+                           % (got_b, 20 * POLL + 5, n1 + n2, n1, n2, "reconnected" if reconnect else "disconnected"))
+            else:
+                if got_b != list(range(n1 + n2)):
+                    out.append("subscriber B received sequences %s, expected %s" % (got_b, list(range(n1 + n2))))
+            for g in (a, b):
+                try:
+                    await g.aclose()
+                except BaseException:  # noqa: BLE001
+                    pass
+        finally:
+            AbstractWorkflowStore.poll_interval = base_poll
+            conn = getattr(store, "_persistent_conn", None)
+            if conn is not None:
+                conn.close()
+
+    vloop.run(main())
+    return out, dict(before=n1, after=n2, reconnect=reconnect, backend=backend)
